@@ -119,6 +119,18 @@ def pipeline(prop, tier, seed, families, with_real=False, second_run=False):
         lines += real
         if second_run:
             lines += [l for l in expand(exe, ["scan:" + ":".join(REAL_DIRS)], prop + "rb") if "/tests/ui/" not in l]
+    # index the events: `ix` = position of the item in VERIF_PROGS (0: a real source of the repository), `prev` = position of
+    # the previous event about the same item (the other process run), so that the trace spec needs neither a search nor a growing map
+    pos = {it["id"]: i + 1 for i, it in enumerate(items)}
+    last = {}
+    out = []
+    for n_, l in enumerate(lines):
+        e = json.loads(l)
+        e["ix"] = pos.get(e.get("id"), 0)
+        e["prev"] = last.get(e.get("id"), 0)
+        last[e.get("id")] = n_ + 1
+        out.append(json.dumps(e) + "\n")
+    lines = out
     trace = os.path.join(wd, "trace_%s.ndjson" % prop)
     with open(trace, "w") as f:
         f.writelines(lines)
